@@ -3,9 +3,9 @@
  * so size <= 64 is no restriction of the library's domain; it is a type invariant of the model.
  *
  * ASSERTED (obligations on pomerol; Boost checks them only with assertions enabled, NDEBUG drops them):
- *   operator[](pos), test(pos)(*), set/reset/flip(pos): pos < size()
- *   (*) test(pos) on a too large pos is not UB in Boost 1.83 -- it is asserted here all the same and
- *       named separately so that a failure can be told apart.
+ *   operator[](pos), test(pos), set/reset/flip(pos): pos < size()   (Boost: `assert(pos < m_num_bits)` in test(),
+ *   line 1141; operator[] indexes m_bits[block_index(pos)] unchecked, line 308 -- beyond size() this reads/writes
+ *   outside the block vector or an unused bit).
  * ASSUMED (documented behaviour): count() = number of set bits; to_ulong() = the value (size <= 64);
  *   operator== : same size and same bits; operator< : for equal sizes the numerical order of the value,
  *   an empty set is smaller than every non-empty one (Boost 1.83 lines 1535-1575); bits at positions
